@@ -3,7 +3,7 @@ A1 = "A1 machine arithmetic treated as mathematical: float / numpy.float64 value
 A2 = ("A2 assumed contracts on dependencies: CPython built-ins (sorted, list.remove, tuple.count/index, abs, min, max, sum, isinstance, len, range), "
       "fractions.Fraction is exact field arithmetic, copy/deepcopy of a number returns an equal number; numpy object-array operations are executed, not assumed, in engine S")
 A3 = ("A3 SEP: distinct knot values are at least 1e-6 apart (the library merges closer knots; known finding D3); where mult() is involved, "
-      "nodes are either equal to a knot or at least 1e-9 away from every knot")
+      "nodes are either equal to a knot or at least 2e-9 away from every knot")
 A4 = "A4 Linalg.invert/solve/lstsq, invert_integer_matrix, Math.gcd/lcm: run-time monitored on every call during S runs (inverse @ A == I exactly), no static proof"
 A5 = ("A5 heavy.find_roots (float sampling + bisection behind the weights setter) is replaced on symbolic weights by its contract "
       "'returns the zeros of the weight function', i.e. () for the positive weights of the preconditions; not verified")
